@@ -295,3 +295,19 @@ CORPUS += [
 CORPUS += [
     V("C12", "eas-start-nodes-wrapped-to-the-depot", _EASD, "        action = env.select_start_nodes(td, num_starts + 1)\n", "        action = env.select_start_nodes(td, num_starts + 1) % num_starts\n", "C12.d"),
 ]
+
+# ---- from the model2 mutation sweep: REINFORCE variants (C16.b), reader job spans (C19.c)
+_PLY = "rl4co/models/zoo/polynet/model.py"
+CORPUS += [
+    V("C16", "mdam-advantage-sign", _MDM, "advantage = reward - bl_val  # advantage", "advantage = reward + bl_val  # advantage", "C16.b"),
+    V("C16", "mdam-surrogate-sign", _MDM, "reinforce_loss = -(advantage * log_likelihood).mean()", "reinforce_loss = (advantage * log_likelihood).mean()", "C16.b"),
+    V("C16", "mdam-baseline-loss-subtracted", _MDM, "loss = reinforce_loss + bl_loss", "loss = reinforce_loss - bl_loss", "C16.b"),
+    V("C16", "polynet-mask-keeps-the-worst", _PLY, "best_idx = (-reward).argsort(1).argsort(1)", "best_idx = reward.argsort(1).argsort(1)", "C16.b"),
+    V("C16", "polynet-rank-over-the-batch-axis", _PLY, "best_idx = (-reward).argsort(1).argsort(1)", "best_idx = (-reward).argsort(0).argsort(0)", "C16.b"),
+    V("C16", "polynet-mask-direction", _PLY, "mask = best_idx < 1", "mask = best_idx > 1", "C16.b"),
+    V("C16", "eq-polynet-mask-equals-zero", _PLY, "mask = best_idx < 1", "mask = best_idx == 0", None),
+    V("C16", "eq-polynet-factor-order", _PLY, "reinforce_loss = -(advantage * log_likelihood * mask).mean()", "reinforce_loss = -(mask * log_likelihood * advantage).mean()", None),
+    V("C19", "fjsp-reader-end-op-shifted", _FPP, "end_op_per_job = n_ope_per_job.cumsum(1) - 1", "end_op_per_job = n_ope_per_job.cumsum(1) + 1", "C19.c"),
+    V("C19", "fjsp-reader-start-op-shifted", _FPP, "end_op_per_job[:, :-1] + 1)", "end_op_per_job[:, :-1] - 1)", "C19.c"),
+    V("C19", "eq-fjsp-reader-start-op-commuted", _FPP, "end_op_per_job[:, :-1] + 1)", "1 + end_op_per_job[:, :-1])", None),
+]
